@@ -1,5 +1,6 @@
 import Setec.Proofs.Store
 import Setec.Generated.Facts
+import Setec.Proofs.Cadence
 /-!
 # C11 - a successful poll brings every known secret to the server's active version
 
@@ -202,6 +203,23 @@ theorem configured_interval_generated (p : Int) (intn : Int → Int) (hp : 0 < p
 example : Facts.gen_pollPeriod (Facts.gen_pollInterval 5000000000) (fun _ => 0) = 4500000000 ∧
     Facts.gen_pollPeriod (Facts.gen_pollInterval 5000000000) (fun n => n - 1) = 5499999999 ∧
     Facts.gen_startsPoller (Facts.gen_pollInterval 5000000000) = true := by decide
+
+/-- The `cadence` monitor never raises an alarm on what the translated code does with an ideal
+ticker: for every interval of at least 5 ns, every rand.Intn, and three or more ticks of the
+period the source computes (`gen_pollPeriod`), the clause the driver evaluates on the real
+store's poll times (`Cadence.cadenceOK`) holds; and a ticker whose period lies outside a tenth of
+the interval is refused from its first tick on. -/
+theorem cadence_monitor_sound (i : Int) (intn : Int → Int) (n : Nat) (hi : 5 ≤ i) (hn : 3 ≤ n)
+    (hd : ∀ m, 0 < m → 0 ≤ intn m ∧ intn m < m) :
+    Cadence.cadenceOK i (Cadence.ticks (Facts.gen_pollPeriod i intn) 0 n) = true ∧
+    (∀ p, (p < i - i / 10 ∨ i + i / 10 < p) → Cadence.cadenceOK i (Cadence.ticks p 0 n) = false) := by
+  have c := cadence_generated i intn (by omega) hd
+  exact ⟨Cadence.cadenceOK_of_period i _ n hn c.1 c.2.1,
+         fun p hp => Cadence.cadenceOK_refuses i p n (by omega) hp⟩
+
+/-- non-vacuity of `cadence_monitor_sound`: a 50 ms store, three ticks at the smallest draw; a minute's period refused -/
+example : Cadence.cadenceOK 50000000 (Cadence.ticks (Facts.gen_pollPeriod 50000000 (fun _ => 0)) 0 3) = true ∧
+    Cadence.cadenceOK 50000000 (Cadence.ticks 60000000000 0 3) = false := by decide
 
 /-- non-vacuity of `cadence` and `poll_ok_fresh`'s hypotheses -/
 example : (7 : Nat) < 2 * 50 / 10 := by decide
